@@ -419,9 +419,9 @@ AcceptElfDeprecated(c, trk, o) ==
 \* iterates as well, ends in a controlled way
 C05_IterAccept(c, trk, call, o) ==
   CASE call.op \in {"next", "nth", "last"} /\ HasIt(trk, call.it) /\ ItOf(trk, call.it).kind = "efi" /\ HasTagIt(c, "efi_mmap") ->
-         \A e \in Exts(o) : Inside(e, EfiIt(c).at + 16, EfiIt(c).at + EfiIt(c).size)
+         Controlled(o) /\ \A e \in Exts(o) : Inside(e, EfiIt(c).at + 16, EfiIt(c).at + EfiIt(c).size)
     [] call.op \in {"next", "nth", "last"} /\ HasIt(trk, call.it) /\ ItOf(trk, call.it).kind = "elf" /\ HasTagIt(c, "elf") ->
-         ~ElfFits(ElfParams(c.mem, ElfIt(c))) => o.k # "some"
+         Controlled(o) /\ (~ElfFits(ElfParams(c.mem, ElfIt(c))) => o.k # "some")
     [] call.op = "dbg" /\ call.what \in {"efi_mmap", "elf"} -> Controlled(o)
     [] OTHER -> TRUE
 \* C04: first-match selection and exact decoding for conformant tags (and "nothing" when absent)
